@@ -151,3 +151,96 @@ func natSortSlice(in *Interp, fn *ssa.Function, args []Value) Value {
 }
 
 var _ = strings.Contains
+
+// sync.Map: an association list kept beside the interpreter state (cleared at the start of every
+// path, like all heap state). Keys are compared with the engine's map-key equality; a symbolic
+// key forks. Stores are synchronised writes for the C19 monitor.
+type syncMapEntry struct {
+	k, v    Value
+	deleted bool
+}
+
+func (in *Interp) syncMapOf(v Value) *[]syncMapEntry {
+	p, ok := v.(*Ptr)
+	if !ok || p.P == nil {
+		goPanic("nil pointer dereference (*sync.Map)")
+	}
+	if in.syncMaps == nil {
+		in.syncMaps = map[*Value]*[]syncMapEntry{}
+	}
+	l := in.syncMaps[p.P]
+	if l == nil {
+		l = &[]syncMapEntry{}
+		in.syncMaps[p.P] = l
+	}
+	return l
+}
+
+func (in *Interp) syncMapFind(l *[]syncMapEntry, key Value) int {
+	for i := len(*l) - 1; i >= 0; i-- {
+		c := in.keyEq((*l)[i].k, key)
+		if c.IsFalse() {
+			continue
+		}
+		if in.branch(c) {
+			if (*l)[i].deleted {
+				return -1
+			}
+			return i
+		}
+	}
+	return -1
+}
+
+func (in *Interp) syncMapWrite(m Value, what string) {
+	p := m.(*Ptr)
+	in.syncDepth++
+	in.checkWrite(p.Stamp, what)
+	in.syncDepth--
+}
+
+func init() {
+	nativeTable["(*sync.Map).Load"] = func(in *Interp, fn *ssa.Function, args []Value) Value {
+		l := in.syncMapOf(args[0])
+		if i := in.syncMapFind(l, args[1]); i >= 0 {
+			return Tuple{(*l)[i].v, in.tb.True}
+		}
+		return Tuple{Iface{}, in.tb.False}
+	}
+	nativeTable["(*sync.Map).Store"] = func(in *Interp, fn *ssa.Function, args []Value) Value {
+		l := in.syncMapOf(args[0])
+		in.syncMapWrite(args[0], "sync.Map.Store")
+		*l = append(*l, syncMapEntry{k: args[1], v: args[2]})
+		return nil
+	}
+	nativeTable["(*sync.Map).LoadOrStore"] = func(in *Interp, fn *ssa.Function, args []Value) Value {
+		l := in.syncMapOf(args[0])
+		if i := in.syncMapFind(l, args[1]); i >= 0 {
+			return Tuple{(*l)[i].v, in.tb.True}
+		}
+		in.syncMapWrite(args[0], "sync.Map.LoadOrStore")
+		*l = append(*l, syncMapEntry{k: args[1], v: args[2]})
+		return Tuple{args[2], in.tb.False}
+	}
+	nativeTable["(*sync.Map).Delete"] = func(in *Interp, fn *ssa.Function, args []Value) Value {
+		l := in.syncMapOf(args[0])
+		if i := in.syncMapFind(l, args[1]); i >= 0 {
+			in.syncMapWrite(args[0], "sync.Map.Delete")
+			*l = append(*l, syncMapEntry{k: args[1], deleted: true})
+		}
+		return nil
+	}
+	nativeTable["(*sync.Map).Range"] = func(in *Interp, fn *ssa.Function, args []Value) Value {
+		l := in.syncMapOf(args[0])
+		for i := 0; i < len(*l); i++ {
+			e := (*l)[i]
+			if e.deleted || in.syncMapFind(l, e.k) != i {
+				continue
+			}
+			if !in.branch(in.callValue(args[1], []Value{e.k, e.v}).(*Term)) {
+				break
+			}
+		}
+		return nil
+	}
+}
